@@ -46,7 +46,7 @@ type typeUse struct {
 }
 
 func usesOf(q string) (map[string]*typeUse, []string, any, bool) {
-	obs := implParse(q)
+	obs := parsedNodes(q)
 	if ok, _ := obs["ok"].(bool); !ok {
 		return nil, nil, obs, false
 	}
@@ -643,7 +643,7 @@ func l2Request(c *l2Case, res *l2Run) map[string]any {
 			args = append(args, tbl.Val(reflect.ValueOf(a)))
 		}
 	}
-	obs := implParse(c.Q)
+	obs := parsedNodes(c.Q)
 	segs := obs["segs"]
 	return map[string]any{"k": "l2", "q": hx(c.Q), "segs": segs, "tt": tbl.Descs, "samples": samples, "args": args,
 		"cls": tbl.Cls(), "obs": res.obs()}
@@ -680,7 +680,11 @@ func runL2(args []string) {
 		fatalf("cannot start driver: %v", err)
 	}
 	defer cl.Close()
+	modelClient = cl
 	rep := newReport("l2", *seed, *tier)
+	if !hooksAvailable {
+		rep.Notes = append(rep.Notes, "degraded mode: hooks not available, the bind model is fed the parser model's nodes")
+	}
 	rep.Rule = "queries from the grammar over the zoo's type names and tags (3/4 conventional statements, 1/4 soup/mutations), " +
 		"samples and arguments built by reflection with perturbations (missing/extra/duplicate/shadow/pointer/nil/anonymous; forms T,*T,[]T,[]*T,*[]T,**T); " +
 		"non-trivial = Prepare succeeded and at least one input or output was bound, or a rejection by Prepare/Query; distinct by hash of query+sample types+argument values"
